@@ -36,10 +36,10 @@ def certs : List CertMode := [.nil, .ok, .err, .empty, .nilcfg, .okerr]
 
 /-! ### property theorems -/
 
-/-- **mustSecure is sound**: for every peer script, every carrier and every TLS behaviour, if a `Connect` with
+/-- **the guard is sound for whatever the handshake is told about the carrier**: for every peer script, every carrier and every TLS behaviour, if a `Connect` with
     `mustSecure` hands back a connection then that connection reports secure; and a connection only ever reports
     secure because the carrier was already encrypted or because the StartTLS handshake was reported established. -/
-theorem C04_mustSecure_sound (secure0 mustSecure : Bool) (tls : B → Bool) (peer : List B)
+theorem C04_connect_sound (secure0 mustSecure : Bool) (tls : B → Bool) (peer : List B)
     (v : B) (t : Tech) (s : Bool) (l : B)
     (h : connect secure0 mustSecure tls peer = .ok v t s l) :
     (mustSecure = true → s = true) ∧ (s = true → secure0 = true ∨ (t = .tls ∧ ∃ left, tls left = true)) := by
@@ -65,6 +65,30 @@ theorem C04_mustSecure_sound (secure0 mustSecure : Bool) (tls : B → Bool) (pee
   | tlsfail => rw [ho] at h; simp at h
   | panic => rw [ho] at h; simp at h
 
+/-- **no upstream kind claims an encrypted carrier it does not have** (regenerated per kind: the expression passed as
+    the `secure` argument of `NewClientConnection`, evaluated in every situation): the argument is true only when the
+    carrier of that `Connect` really is a TLS connection; all five kinds are in the table. -/
+theorem C04_secure_args_honest :
+    Gen.c04SecureArgs.map (fun r => r.1) = upstreamKinds ∧
+    ∀ kind ∈ upstreamKinds, ∀ ctls aes must : Bool,
+      secureArgValue (secureArgClass kind) ⟨ctls, aes, must⟩ = true → ctls = true := by decide
+
+/-- **mustSecure is sound, per upstream kind, over the argument the kind really passes**: for every upstream kind, every
+    situation (carrier TLS or not, udp shared secret or not, security required or not), every peer script and every TLS
+    behaviour: if that kind's `Connect` hands back a connection, then with `mustSecure` it reports secure, and it reports
+    secure only because the carrier really is TLS or because the StartTLS handshake was reported established. -/
+theorem C04_mustSecure_sound (kind : String) (hk : kind ∈ upstreamKinds) (e : KindEnv) (tls : B → Bool) (peer : List B)
+    (v : B) (t : Tech) (s : Bool) (l : B)
+    (h : connectKind kind e tls peer = .ok v t s l) :
+    (e.mustSecure = true → s = true) ∧
+    (s = true → e.carrierTls = true ∨ (t = .tls ∧ ∃ left, tls left = true)) := by
+  obtain ⟨h1, h2⟩ := C04_connect_sound _ _ tls peer v t s l h
+  refine ⟨h1, fun hs => ?_⟩
+  rcases h2 hs with h0 | h0
+  · obtain ⟨ctls, aes, must⟩ := e
+    exact Or.inl (C04_secure_args_honest.2 kind hk ctls aes must h0)
+  · exact Or.inr h0
+
 /-- **only a successful Connect is stored**: whatever `Upstreams.open` keeps as its connection came from a `Connect`
     that returned nil, and with `MustSecure` it reports secure — application data (the multiplexer session) is only
     ever started on a stored connection. -/
@@ -80,7 +104,7 @@ theorem C04_open_stores_only_secure (mustSecure : Bool) (tls : B → Bool) (eps 
     | ok v t s l =>
       rw [hc] at h
       simp only [Option.some.injEq] at h
-      exact ⟨v, t, s, l, h.symm, (C04_mustSecure_sound s0 mustSecure tls peer v t s l hc).1⟩
+      exact ⟨v, t, s, l, h.symm, (C04_connect_sound s0 mustSecure tls peer v t s l hc).1⟩
     | insecureRejected => rw [hc] at h; exact ih h
     | failed o => rw [hc] at h; exact ih h
 
@@ -166,6 +190,31 @@ theorem C04_secure_flag_agrees :
       (isEstablished p.server = true → p.server = p.client) := by
   decide +kernel
 
+/-- the three clauses of the property on one cell of the grid (Bool-valued so that the table is decidable) -/
+def cellSafe (scheme : String) (scert must : Bool) : Cell → Bool
+  | .est t s echo clear =>
+    let ctls := tlsSchemes.contains scheme
+    (!must || (s && (t == .tls || ctls) && echo && !clear)) &&
+    (!(scert && !ctls) || (t == .tls && s && echo)) &&
+    (!s || !clear)
+  | _ => true
+
+/-- **the end-to-end grid** (model of `seckinds`: the real client kind against the real server of that kind; complete
+    finite table scheme x server certificate x require-security x insecure flag x client CA, evaluated by the kernel on
+    the rendered handshake messages, each kind with the `secure` argument it really passes): whenever a session exists
+    (1) with require-security it is reported secure, is TLS-protected (StartTLS or a TLS carrier), works end to end and
+    the payload is not in clear on the carrier; (2) on an unencrypted carrier with a server certificate (StartTLS
+    offered) it is TLS, secure and works end to end; (3) reported secure => payload not in clear. -/
+theorem C04_grid_never_plaintext :
+    ∀ scheme ∈ ["tcp", "tcp+tls", "ws", "wss", "udp", "stdio", "stdio+tls", "dns"],
+    ∀ scert must insecure ca : Bool,
+      cellSafe scheme scert must (cell scheme scert must insecure ca) = true := by
+  have core : ∀ scheme ∈ ["tcp", "tcp+tls", "ws", "wss", "udp", "stdio", "stdio+tls", "dns"],
+      ∀ scert must acc : Bool, cellSafe scheme scert must (cellCore scheme scert must acc) = true := by
+    decide +kernel
+  intro scheme hs scert must insecure ca
+  exact core scheme hs scert must (accepts scheme insecure ca)
+
 /-! ### non-vacuity -/
 
 /-- a server that advertises StartTLS, TLS succeeding: the client secures the session -/
@@ -186,8 +235,23 @@ example : honestPair ⟨false, .ok⟩ false true =
 example : honestPair ⟨false, .nil⟩ false true =
     ⟨.established Gen.c06ProtocolVersion .none false [], .established Gen.c06ProtocolVersion .none false []⟩ := by decide +kernel
 
+/-- per kind: udp with require-security against a peer that strips the capability is rejected, a TLS socket is kept -/
+example : connectKind "packet" ⟨false, false, true⟩ (fun l => l.isEmpty)
+    [render ⟨200, [(bProtocolVersion, Gen.c06ProtocolVersion)]⟩ ++ render ⟨101, []⟩] = .insecureRejected := by
+  decide +kernel
+example : connectKind "socket" ⟨true, false, true⟩ (fun l => l.isEmpty)
+    [render ⟨200, [(bProtocolVersion, Gen.c06ProtocolVersion)]⟩ ++ render ⟨101, []⟩]
+      = .ok Gen.c06ProtocolVersion .underlying true [] := by decide +kernel
+/-- grid: udp + server certificate + require-security + CA => StartTLS; without the CA => no session -/
+example : cell "udp" true true false true = .est .tls true true false := by decide +kernel
+example : cell "udp" true true false false = .refused := by decide +kernel
+example : cell "tcp" false false false false = .est .none false true true := by decide +kernel
+
 end SA.Security
 
+#print axioms SA.Security.C04_connect_sound
+#print axioms SA.Security.C04_secure_args_honest
+#print axioms SA.Security.C04_grid_never_plaintext
 #print axioms SA.Security.C04_mustSecure_sound
 #print axioms SA.Security.C04_open_stores_only_secure
 #print axioms SA.Security.C04_guard_shape
